@@ -118,10 +118,10 @@ FIELD_ACTIONS = {
 }
 
 
-def field_loop(parse):
-    """[(guard, action)] of the if / elif chain in the body of `for field in self.fields:` (ObjectMethod.deserialize)"""
+def field_loop(parse, cls="ObjectMethod"):
+    """[(guard, action)] of the if / elif chain in the body of `for field in self.fields:` (ObjectMethod / SimpleObjectMethod .deserialize)"""
     m = parse("deserialization/methods.py")
-    fn = find_fn(find_class(m, "ObjectMethod"), "deserialize")
+    fn = find_fn(find_class(m, cls), "deserialize")
     loop = next((s for s in (fn.body if fn else []) if isinstance(s, ast.For) and ast.unparse(s.target) == "field" and ast.unparse(s.iter) == "self.fields"), None)
     if loop is None or len(loop.body) != 1 or not isinstance(loop.body[0], ast.If) or loop.orelse:
         return [('(.atom "UNKNOWN: ObjectMethod.deserialize field loop")', '.unknown ""')]
@@ -131,11 +131,13 @@ def field_loop(parse):
         # fields_count += 1; try: values[field.name] = field.method.deserialize(data[field.alias]) except ValidationError as err: if <g>: record
         if len(stmts) == 2 and ast.unparse(stmts[0]) == "fields_count += 1" and isinstance(stmts[1], ast.Try):
             t = stmts[1]
-            if "\n".join(ast.unparse(s) for s in t.body) == "values[field.name] = field.method.deserialize(data[field.alias])" and len(t.handlers) == 1 \
+            call = "\n".join(ast.unparse(s) for s in t.body)
+            kind = {"values[field.name] = field.method.deserialize(data[field.alias])": ".deserialize", "field.method.deserialize(data[field.alias])": ".check"}.get(call)
+            if kind is not None and len(t.handlers) == 1 \
                     and not t.orelse and not t.finalbody and ast.unparse(t.handlers[0].type) == "ValidationError" and len(t.handlers[0].body) == 1 \
                     and isinstance(t.handlers[0].body[0], ast.If) and not t.handlers[0].body[0].orelse \
                     and "\n".join(ast.unparse(s) for s in t.handlers[0].body[0].body) == "field_errors = set_child_error(field_errors, field.alias, err)":
-                return f"(.deserialize {bexpr(t.handlers[0].body[0].test)})"
+                return f"({kind} {bexpr(t.handlers[0].body[0].test)})"
         return ".unknown " + ls(src)
     chain, node = [], loop.body[0]
     while True:
@@ -146,10 +148,12 @@ def field_loop(parse):
     return chain
 
 
-def render_field_loop(chain):
+def render_field_loop(chain, simple=None):
+    extra = [] if simple is None else ["", "/-- the same loop in `SimpleObjectMethod.deserialize` (values are checked, not stored) -/",
+             "def fieldLoopSimple : List (Api.BExpr × Api.FAction) := [\n  " + ",\n  ".join(f"({g}, {a})" for g, a in simple) + "]"]
     return "\n".join(["import Apimodel.FieldLoopSrc", "/-! GENERATED by tools/extract.py from apischema/deserialization/methods.py (ObjectMethod.deserialize, the loop over self.fields) — do not edit -/",
                       "namespace Api.Generated", "", "/-- the if / elif chain of the field loop, in source order -/",
-                      "def fieldLoop : List (Api.BExpr × Api.FAction) := [\n  " + ",\n  ".join(f"({g}, {a})" for g, a in chain) + "]", "", "end Api.Generated", ""])
+                      "def fieldLoop : List (Api.BExpr × Api.FAction) := [\n  " + ",\n  ".join(f"({g}, {a})" for g, a in chain) + "]"] + extra + ["", "end Api.Generated", ""])
 
 
 # ------------------------------------------------------------------------------------------- with_fields_set (apischema/fields.py)
